@@ -145,6 +145,9 @@ class Ctx:
                 "extra": self.extra}
 
 
+CASE_CPU_S = 300
+
+
 def library_frame(ex):
     """'file:function' of the innermost frame of the traceback that lies in the efootprint package (None if none)."""
     root = os.path.realpath(os.path.join(env.REPO, "efootprint")) + os.sep
@@ -160,6 +163,7 @@ def run_given(ctx, strategy, body, max_examples, shrink=False):
     """Drive ``body(case)`` with Hypothesis under the determinism rules of this framework."""
     from hypothesis import given, settings, seed, HealthCheck, Phase
     from hypothesis.errors import HypothesisException
+    from . import machine as M
     ctx.shrink_mode = shrink
     phases = [Phase.generate, Phase.shrink] if shrink else [Phase.generate]
 
@@ -176,9 +180,20 @@ def run_given(ctx, strategy, body, max_examples, shrink=False):
             body(case)
             return
         try:
-            body(case)
+            # per-case guard: a case costs seconds of CPU; a library call that a check did not wrap in its own 90 s
+            # watchdog and that never returns would otherwise stall the shard until the hard deadline (exit 2)
+            with M.watchdog(CASE_CPU_S):
+                body(case)
         except HypothesisException:
             raise
+        except M.Hang as ex:
+            where = library_frame(ex)
+            if where is None:
+                raise RuntimeError("a case used more than %d s of CPU outside the library" % CASE_CPU_S) from ex
+            ctx.violation("hang_in_library", case,
+                          "the case did not finish within %d s of CPU time; the library was executing %s\n%s" % (
+                              CASE_CPU_S, where, traceback.format_exc(limit=-8)),
+                          {"kind": "hang_in_library", "where": where})
         except Exception as ex:
             # The system-level checks only build models through the public constructors, apply the operations their
             # property quantifies over and read public attributes. When the library raises while the check *reads* the
